@@ -55,3 +55,46 @@ Definition api_net_ok (nl : netlist) (n : net) : bool :=
   end.
 
 Definition api_built (nl : netlist) : bool := forallb (api_net_ok nl) (nets nl).
+
+(* ---- premises of Pass/OptAliasProofs.alias_run for remove_nets_by ------------- *)
+
+Definition alias_gone (nl : netlist) (sel : net -> bool) (n : net) : bool :=
+  sel n && negb (is_output nl (ndest n)).
+
+Definition alias_map (nl : netlist) (sel : net -> bool) : list (Z * Z) :=
+  flat_map (fun n => if alias_gone nl sel n then [(ndest n, arg n 0)] else []) (nets nl).
+
+Definition alias_rho (nl : netlist) (sel : net -> bool) : wid -> wid :=
+  find_producer (S (length (nets nl))) (alias_map nl sel).
+
+Definition alias_dead (nl : netlist) (sel : net -> bool) : list wid :=
+  flat_map (fun n => if alias_gone nl sel n then [ndest n] else []) (nets nl).
+
+Definition alias_ok (nl : netlist) (sel : net -> bool) : bool :=
+  let rho := alias_rho nl sel in
+  let dead := alias_dead nl sel in
+  forallb (fun n => if alias_gone nl sel n
+                    then (rho (ndest n) =? rho (arg n 0))
+                         && Nat.eqb (length (nargs n)) 1
+                         && (width_of nl (ndest n) =? width_of nl (arg n 0))
+                    else true) (nets nl)
+  && forallb (fun w => (mem_in w dead || (rho w =? w))
+                       && (width_of nl (rho w) =? width_of nl w)
+                       && negb (mem_in (rho w) dead)) (rdy_final nl)
+  && forallb (fun w => negb (mem_in w dead)) (rdy0 nl)
+  && forallb (fun n => alias_gone nl sel n || negb (op_has_dest (nop n))
+                       || negb (mem_in (ndest n) dead)) (nets nl).
+
+(* sanity_check's rules for a select: indices inside the source, destination not
+   wider than the index list *)
+Definition slices_sane (nl : netlist) : bool :=
+  forallb (fun n => match nop n with
+                    | OpSelect idx =>
+                        forallb (fun i => (0 <=? i) && (i <? width_of nl (arg n 0))) idx
+                        && (width_of nl (ndest n) <=? Z.of_nat (length idx))
+                    | _ => true
+                    end) (nets nl).
+
+Definition wire_removal_ok (nl : netlist) : bool := alias_ok nl is_w_net.
+Definition slice_removal_ok (nl : netlist) : bool :=
+  alias_ok nl (is_full_slice nl) && slices_sane nl.
